@@ -143,8 +143,8 @@ theorem wrap_refuse_frame_full_false : ¬ C06Wrap.wrap_refuse_frame_full := C06W
 theorem wrap_redeliver : type_of% @C06Wrap.wrap_redeliver := @C06Wrap.wrap_redeliver
 theorem wrap_failed_record : type_of% @C06Wrap.wrap_failed_record := @C06Wrap.wrap_failed_record
 theorem wrap_reason_table : type_of% @C06Wrap.wrap_reason_table := @C06Wrap.wrap_reason_table
-theorem wrap_no_panic_full_false : ¬ C06Wrap.wrap_no_panic_full := C06Wrap.wrap_no_panic_full_false
-theorem wrap_panic_repeats : type_of% @C06Wrap.wrap_panic_repeats := @C06Wrap.wrap_panic_repeats
+theorem wrap_no_panic : C06Wrap.wrap_no_panic_full := C06Wrap.wrap_no_panic
+theorem wrap_short_payload_refused : type_of% @C06Wrap.wrap_short_payload_refused := @C06Wrap.wrap_short_payload_refused
 theorem wrap_no_panic_partial : type_of% @C06Wrap.wrap_no_panic_partial := @C06Wrap.wrap_no_panic_partial
 theorem wrap_no_panic_of_guard : type_of% @C06Wrap.wrap_no_panic_of_guard := @C06Wrap.wrap_no_panic_of_guard
 
